@@ -291,3 +291,186 @@ def judge_batch(spec, hist, faulted, tainted):
                              "detail": {"kind": "batch", "other_step": ia, "field": bad[0], "index": [bad[1], bad[2]],
                                         "values": [bad[3], bad[4]], "same_request": a == b}})
     return viol, stats
+
+
+# ---------------------------------------------------------------------------------------------
+# C05: the uniform call/return contract (DESIGN.md §4.3)
+# ---------------------------------------------------------------------------------------------
+_IFACE = None
+
+
+def interface():
+    global _IFACE
+    if _IFACE is None:
+        import json
+        import os
+        from .env import VERIF_ROOT
+        with open(os.path.join(VERIF_ROOT, "interface_census.json")) as f:
+            _IFACE = json.load(f)["classes"]
+        _IFACE["verif.probe.ProbeSolver"] = {"1": ["position", "value"]}
+    return _IFACE
+
+
+def check_csv(content, names, expect):
+    """I6: header == names; every cell parses back to the identical value.  Returns None or a reason."""
+    import csv
+    import io
+    import struct
+    if content is None:
+        return "no file content"
+    try:
+        text = content.decode("utf-8")
+    except Exception as e:  # noqa
+        return "undecodable: %r" % (e,)
+    rows = list(csv.reader(io.StringIO(text, newline="")))
+    if not rows:
+        return "empty file"
+    if tuple(rows[0]) != tuple(names):
+        return "header %r != field names %r" % (rows[0][:8], list(names)[:8])
+    body = rows[1:]
+    if len(body) != len(expect):
+        return "row count %d != %d records" % (len(body), len(expect))
+    for i, (row, exp) in enumerate(zip(body, expect)):
+        if len(row) != len(exp):
+            return "row %d has %d cells, expected %d" % (i, len(row), len(exp))
+        for j, (cell, e) in enumerate(zip(row, exp)):
+            kind, val = e[0], e[1]
+            if kind == "f":
+                try:
+                    got = struct.pack("<d", float(cell))
+                except ValueError:
+                    return "row %d col %s: %r is not a float" % (i, names[j], cell)
+                want = bytes(val)
+                if got != want:
+                    a, b = struct.unpack("<d", got)[0], struct.unpack("<d", want)[0]
+                    if not (a != a and b != b):
+                        return "row %d col %s: %r reads back as %r, value was %r" % (i, names[j], cell, a, b)
+            elif kind == "i":
+                try:
+                    if int(cell) != val:
+                        return "row %d col %s: %r != %r" % (i, names[j], cell, val)
+                except ValueError:
+                    return "row %d col %s: %r is not an int" % (i, names[j], cell)
+            elif kind == "c":
+                try:
+                    z = complex(cell)
+                except ValueError:
+                    return "row %d col %s: %r is not a complex" % (i, names[j], cell)
+                want = complex(*struct.unpack("<dd", bytes(val)))
+                if not ((z.real == want.real or (z.real != z.real and want.real != want.real)) and
+                        (z.imag == want.imag or (z.imag != z.imag and want.imag != want.imag))):
+                    return "row %d col %s: %r reads back as %r, value was %r" % (i, names[j], cell, z, want)
+            else:
+                if cell != val:
+                    return "row %d col %s: %r != %r" % (i, names[j], cell, val)
+    return None
+
+
+def judge_c05(spec, hist, refs):
+    np = world.np
+    viol = []
+    stats = {"i1_calls": 0, "i3_named": 0, "i4_pairs": 0, "i6_dumps": 0, "i7_faulted_dumps": 0, "i7_raised": 0,
+             "i7_returned_after_fault": 0, "i8_after_failed": 0, "i9_badnew": 0, "stream_faults_fired": 0,
+             "unjudged_faulted": 0, "dump_nonoserror": 0}
+    faulted = _faulted_steps(hist)
+    tainted = set()
+    failed_dump = set()
+    iface = interface()
+
+    def add(inv, i, op, detail):
+        viol.append({"inv": inv, "step": i, "cls": short_cls(_cls_of(spec, op)), "fam": op.get("fam", _fam_of(spec, op)), "detail": detail})
+
+    sol_owner = {}
+    for op in spec["ops"]:
+        if op["op"] == "call":
+            sol_owner[op["sol"]] = op
+    for rec in hist["log"]:
+        i = rec["i"]
+        op = spec["ops"][i]
+        out = rec["out"]
+        for ev in rec["events"]:
+            if ev[0] == "input-modified":
+                add("I5", i, op, {"kind": "input-modified", "id": ev[1], "during": op["op"]})
+            else:
+                add("I2", i, op, {"kind": "solution-changed", "id": ev[1], "during": op["op"]})
+        if i in faulted and op["op"] != "dump":
+            stats["unjudged_faulted"] += 1
+            if op["op"] == "new":
+                tainted.add(op["obj"])
+            continue
+        if op["op"] == "new" and op.get("expect"):
+            stats["i9_badnew"] += 1
+            if not (out[0] == "exc" and out[1] == op["expect"]):
+                add("I9", i, op, {"kind": "bad-constructor", "expected": op["expect"],
+                                  "got": list(out[:3]) if out[0] == "exc" else "constructed",
+                                  "which": "unknown" if "zzz_unknown_parameter" in repr(op.get("kw")) else "missing"})
+            continue
+        if op["op"] == "call" and out[0] == "ok" and op["obj"] not in tainted:
+            pts = dec(op["pts"])
+            layout = op.get("layout", "N")
+            n = pts.shape[1] if layout == "2N" else pts.shape[0]
+            d = 1 if layout == "N" else (2 if layout == "2N" else pts.shape[1])
+            stats["i1_calls"] += 1
+            if out[5] != n:
+                add("I1", i, op, {"kind": "record-count", "requested": n, "returned": out[5]})
+            # I2: the first d fields are the coordinates passed, bit for bit, in the order passed
+            cols = [pts] if layout == "N" else ([pts[j, :] for j in range(2)] if layout == "2N" else [pts[:, j] for j in range(d)])
+            names = out[1]
+            okpos = len(names) >= d
+            if okpos:
+                for j in range(d):
+                    f = out[2][j]
+                    if not (f[0] == "float64" and f[2] == np.ascontiguousarray(cols[j], dtype=float).tobytes()):
+                        okpos = False
+                        break
+            if not okpos:
+                add("I2", i, op, {"kind": "positions-not-first", "names": list(names)[:8], "dim": d})
+            # I3: field names and order as pinned
+            want = iface.get(_cls_of(spec, op), {}).get(str(d))
+            if want is not None:
+                stats["i3_named"] += 1
+                if list(names) != list(want):
+                    add("I3", i, op, {"kind": "field-names", "returned": list(names), "pinned": list(want)})
+            if not out[4].endswith("ExactSolution"):
+                add("I3", i, op, {"kind": "return-type", "type": out[4]})
+        if op["op"] == "call" and op.get("cont", "nd") != "nd" and op["obj"] not in tainted and i in refs:
+            # I4: container equivalence, decided between two fresh evaluations (history cannot interfere)
+            m = mini_spec(spec, i)
+            m["ops"][-1] = dict(m["ops"][-1], cont="nd")
+            ref_nd = reference(m)[0][-1]
+            ref_own = refs[i][0][-1]
+            stats["i4_pairs"] += 1
+            if not same_outcome(ref_own, ref_nd):
+                add("I4", i, op, {"kind": "container", "container": op["cont"], "diff": describe_diff(ref_own, ref_nd)})
+        if op["op"] == "dump" and out[0] == "dump":
+            _, res, content, names, expect, leaked, fired, writes = out
+            planned = bool(op.get("plan"))
+            stats["stream_faults_fired"] += len(fired)
+            sid = op["sol"]
+            if leaked:
+                add("I7", i, op, {"kind": "handle-left-open", "count": leaked})
+            if res[0] == "returned":
+                why = check_csv(content, names, expect)
+                if fired:
+                    stats["i7_returned_after_fault"] += 1
+                else:
+                    stats["i6_dumps"] += 1
+                if sid in failed_dump and not fired:
+                    stats["i8_after_failed"] += 1
+                if why is not None:
+                    inv = "I7" if fired else ("I8" if sid in failed_dump else "I6")
+                    add(inv, i, op, {"kind": "csv-roundtrip" if not fired else "csv-after-swallowed-error", "why": why,
+                                     "device": op.get("dev", "sim"), "fired": fired})
+                if not fired:
+                    failed_dump.discard(sid)
+            else:
+                stats["i7_raised"] += 1
+                failed_dump.add(sid)
+                if not fired:
+                    # dump raised although no stream fault fired: the writer itself failed
+                    add("I6", i, op, {"kind": "dump-raised", "exc": res[1], "device": op.get("dev", "sim")})
+                elif not res[2]:
+                    stats["dump_nonoserror"] += 1
+            if planned:
+                stats["i7_faulted_dumps"] += 1
+    return viol, stats
